@@ -6,7 +6,11 @@ python3 - "$v" "$ov" <<'P' || exit 2
 import json,sys
 m=json.load(open(sys.argv[1])); path='/repo/'+m['file']; src=open(path).read()
 assert src.count(m['old'])==1, "old text occurs %d times"%src.count(m['old'])
-json.dump({path: src.replace(m['old'],m['new'])}, open(sys.argv[2],'w'))
+src=src.replace(m['old'],m['new'])
+for e in m.get('edits',[]):
+    assert src.count(e['old'])==1, "edit text occurs %d times"%src.count(e['old'])
+    src=src.replace(e['old'],e['new'])
+json.dump({path: src}, open(sys.argv[2],'w'))
 P
 ${VCHECK_BIN:-/verif/bin/vcheck} -prop $p -no-evidence -overlay $ov "$@"; rc=$?
 rm -f $ov; exit $rc
